@@ -14,14 +14,15 @@ PLAN = {
 RULE = ("a case is a schema over all persistent families (containers of encoded items such as ListField(BytesField), "
         "DictField(StringField, BytesField(hex)), ListField(ChallengeField), ListField(SecureField); lists of schemas / "
         "config types with nested sub-configurations; dynamic fields; virtual and instance-method fields) and a state "
-        "reached by loading a valid tree followed by valid assignments and list/dict mutations, required to pass "
+        "reached by loading a valid tree followed by valid assignments and list/dict mutations (in part of the cases with "
+        "reset_value() called on every calculated field, or on every field of the new configuration), required to pass "
         "validate(); for every format whose domain contains the state and every option value: to_tree() must be plain "
         "data with string keys and without virtual / method keys (with them only when virtual=True), "
         "loads(dumps(S)) into a fresh configuration with the same non-default key file must succeed and equal S "
         "modulo the two stated normalisations, and the default key file must stay untouched; out-of-domain (state, "
         "format) pairs are skipped and counted; non-trivial = state with >= 3 set values reloaded in >= 2 formats; "
         "distinct = distinct (schema, state)")
-REQUIRED = ("roundtrips_after_a_field_was_declared_again", "second_loads_after_in_place_changes", "documents_with_related_strings", "dynamic_fields_with_dotted_names", "roundtrips_after_key_rotation", "schema_key_equals_root_tag", "nested_encoded_containers", "roundtrips:json", "roundtrips:yaml", "roundtrips:bson", "roundtrips:xml", "roundtrips:pickle",
+REQUIRED = ("resets_of_calculated_fields", "calculated_field_key_checks", "roundtrips_after_a_field_was_declared_again", "second_loads_after_in_place_changes", "documents_with_related_strings", "dynamic_fields_with_dotted_names", "roundtrips_after_key_rotation", "schema_key_equals_root_tag", "nested_encoded_containers", "roundtrips:json", "roundtrips:yaml", "roundtrips:bson", "roundtrips:xml", "roundtrips:pickle",
             "tree_plainness_checks", "virtual_key_checks", "states_validated", "list_of_config_states",
             "encoded_item_containers")
 ASSUMPTIONS = ["equality is judged on the plain image of the configurations (values at every depth), not on object identity",
@@ -60,6 +61,11 @@ def generate(rng, ctx):
         schema["fields"].append({"kind": "field", "key": "virt0", "family": "virtual", "params": {"returns": "v"}})
     if rng.random() < 0.3:
         schema["fields"].append({"kind": "field", "key": "meth0", "family": "method", "params": {"source": "def f(cfg, a=1):\n    return a\n"}})
+    if rng.random() < 0.3:
+        # a calculated field inside a section
+        secs = [ch for ch in schema["fields"] if ch["kind"] == "schema"]
+        if secs:
+            rng.choice(secs)["fields"].append({"kind": "field", "key": "virt1", "family": "virtual", "params": {"returns": "w"}})
     roundtrip.persistable(schema, rng)
     env = gen.GEN_ENV
     tree = roundtrip.state_tree(rng, schema, fmt, env, partial=0.25)
@@ -79,8 +85,15 @@ def generate(rng, ctx):
                     names.append(sec["key"] + "." + rng.choice(leaves)["key"])
             for nm in rng.sample(names, rng.choice([1, 2])):
                 dyn[nm] = rng.choice([1, "s", True, 2.5])
+    # reset_value() is also called on the keys of calculated fields (virtual fields, the is_<mode>_mode helpers of an
+    # application-mode field, instance methods): a "factory reset" loop over everything the schema declares, on the new
+    # configuration before the document is loaded ("before"), on the final state ("after") or both
+    calc = None
+    if rng.random() < 0.6:
+        calc = {"when": rng.choice(["before", "after", "after", "both"]), "route": rng.choice(["parent", "dotted"]),
+                "every_field": rng.random() < 0.5, "n": rng.randrange(1 << 16)}
     return {"schema": schema, "fmt": fmt, "tree": tree, "ops": ops, "dyn": dyn,
-            "rotate": rng.randrange(1, 1 << 20) if rng.random() < 0.5 else 0}
+            "rotate": rng.randrange(1, 1 << 20) if rng.random() < 0.5 else 0, "calc_reset": calc}
 
 
 RELATED_STRINGS = [
@@ -133,6 +146,9 @@ def run(case, ctx, res):
     env = env_of(ctx)
     drv = history.Driver(ctx, res, case["schema"], env)
     cfg, root = drv.cfg, drv.root
+    calc = case.get("calc_reset")
+    if calc and calc["when"] in ("before", "both"):
+        _reset_fields(cc, cfg, calc, res, True)
     try:
         cfg.load_tree(copy.deepcopy(case["tree"]))
     except Exception:
@@ -153,11 +169,26 @@ def run(case, ctx, res):
                 res.count("dynamic_fields_with_dotted_names")
         except Exception:
             pass
+    if calc and calc["when"] in ("after", "both"):
+        # on the final state only the calculated fields are reset (the persistent values are the point of the round trip)
+        _reset_fields(cc, cfg, calc, res, False)
     try:
         cfg.validate()
     except Exception:
         res.count("state_not_valid")
         return
+    # no calculated field of any section (declared by the case or created by the library, e.g. is_<mode>_mode) is written
+    try:
+        early = cfg.to_tree()
+    except Exception:
+        early = None  # judged below, for the states the model accepts
+    if early is not None:
+        res.count("calculated_field_key_checks")
+        found = _calculated_in_tree(cc, cfg, early, "")
+        if found:
+            res.viol("M-tree", "virtual-key-in-tree", "to_tree() contains the %s field %r%s" % (
+                found[0][1], found[0][0], " (reset_value() had been called on the calculated fields)" if calc else ""))
+            return
     state = plain(cfg)
     if model.validate_values(root, state) is not True:
         # e.g. a required field of a list item reset after insertion: Config.validate() does not look into list items
@@ -330,6 +361,77 @@ def run(case, ctx, res):
                     return
     if done >= 2 and _count_set(state) >= 3:
         res.nontrivial(case["schema"], case["tree"], case["ops"], case["dyn"])
+
+
+def _sections(cc, cfg, path="", depth=0):
+    """(path, configuration) for the configuration and every configuration below it (sections, items of lists)."""
+    out = [(path, cfg)]
+    if depth > 6:
+        return out
+    for key, val in list(cfg._data.items()):
+        sub = (path + "." if path else "") + key
+        if isinstance(val, cc.Config):
+            out.extend(_sections(cc, val, sub, depth + 1))
+        elif isinstance(val, list):
+            for i, item in enumerate(list(val)):
+                if isinstance(item, cc.Config):
+                    out.extend(_sections(cc, item, "%s[%d]" % (sub, i), depth + 1))
+    return out
+
+
+def _is_calculated(cc, field):
+    if isinstance(field, cc.core.InstanceMethodFieldMixin):
+        return "method"
+    if isinstance(field, cc.core.VirtualFieldMixin):
+        return "virtual"
+    return None
+
+
+def _reset_fields(cc, cfg, calc, res, fresh):
+    """reset_value() on the calculated fields of every section; on a new configuration (fresh) optionally on every field
+    the schema declares.  Sections are collected first: resetting a section replaces the object."""
+    for path, sec in _sections(cc, cfg):
+        for key, field in list(sec._schema._fields.items()):
+            kind = _is_calculated(cc, field)
+            if kind is None and not (fresh and calc["every_field"]):
+                continue
+            if kind is None and isinstance(field, (cc.Schema, cc.core.ConfigTypeField)):
+                continue  # replaces the section object (C12's subject); the fields inside are reset one by one
+            try:
+                if calc["route"] == "dotted" and "[" not in path and path:
+                    cc.reset_value(cfg, path + "." + key)
+                else:
+                    cc.reset_value(sec, key)
+            except Exception:
+                res.count("calculated_field_reset_errors")
+                continue
+            if kind:
+                res.count("resets_of_calculated_fields")
+                res.count("resets_of_calculated_fields:" + kind)
+            else:
+                res.count("resets_of_persistent_fields_before_load")
+
+
+def _calculated_in_tree(cc, cfg, tree, path):
+    """[(path, kind)] of calculated fields (virtual, instance method) that occur as keys in the tree of cfg."""
+    out = []
+    if not isinstance(tree, dict):
+        return out
+    for key, field in list(cfg._schema._fields.items()) + list(cfg._fields.items()):
+        kind = _is_calculated(cc, field)
+        sub = (path + "." if path else "") + key
+        if kind:
+            if key in tree:
+                out.append((sub, kind))
+            continue
+        val = cfg._data.get(key)
+        if isinstance(val, cc.Config):
+            out.extend(_calculated_in_tree(cc, val, tree.get(key), sub))
+        elif isinstance(val, list) and isinstance(tree.get(key), list) and len(val) == len(tree[key]):
+            for i, item in enumerate(list(val)):
+                if isinstance(item, cc.Config):
+                    out.extend(_calculated_in_tree(cc, item, tree[key][i], "%s[%d]" % (sub, i)))
+    return out
 
 
 def _errkind(err):
